@@ -28,9 +28,10 @@ type SetOp struct {
 
 // SetCase is a history over one of the set implementations.
 type SetCase struct {
-	Impl    string  `json:"impl"` // mapset-int, mapset-string, sorted-int, sorted-string
-	Initial []int   `json:"initial"`
-	Ops     []SetOp `json:"ops"`
+	Universe int     `json:"universe,omitempty"` // number of distinct values (default 12)
+	Impl     string  `json:"impl"`               // mapset-int, mapset-string, sorted-int, sorted-string
+	Initial  []int   `json:"initial"`
+	Ops      []SetOp `json:"ops"`
 }
 
 // setAPI abstracts over the two implementations.
@@ -70,7 +71,7 @@ func modelSorted[T cmp.Ordered](m map[T]bool) []T {
 	return out
 }
 
-func observe[T cmp.Ordered, S setAPI[T]](im impl[T, S], p pair[T, S], stop int) error {
+func observe[T cmp.Ordered, S setAPI[T]](im impl[T, S], p pair[T, S], stop, universe int) error {
 	want := modelSorted(p.model)
 	if p.set.Len() != len(want) {
 		return fmt.Errorf("Len() = %d, model has %d elements %v", p.set.Len(), len(want), want)
@@ -143,11 +144,15 @@ func runSet[T cmp.Ordered, S setAPI[T]](im impl[T, S], c SetCase) error {
 		init[i] = im.conv(v)
 		m[init[i]] = true
 	}
+	uni := universe
+	if c.Universe > 0 {
+		uni = c.Universe
+	}
 	pairs := []pair[T, S]{{set: im.newSet(slices.Clone(init)...), model: m}}
 	deletedPresent, cloneThenMutate, cloned := false, false, false
 	checkAll := func(step string, stop int) error {
 		for i, p := range pairs {
-			if err := observe(im, p, stop); err != nil {
+			if err := observe(im, p, stop, uni); err != nil {
 				return fmt.Errorf("%s after %s: set #%d: %w", im.name, step, i, err)
 			}
 			if im.equal(p.set, im.nilSet()) {
@@ -297,7 +302,7 @@ func sortedImpl[T cmp.Ordered](name string, conv func(int) T) impl[T, *container
 }
 
 func convInt(i int) int       { return i*7 - 20 }
-func convString(i int) string { return fmt.Sprintf("k%02d", i+1) }
+func convString(i int) string { return fmt.Sprintf("k%03d", i+1) }
 
 func checkSet(c SetCase) error {
 	switch c.Impl {
@@ -467,6 +472,49 @@ func TestRegression(t *testing.T) {
 	vp.CheckCase(t, "c11.ring", RingCase{Cap: 0, Ops: []RingOp{{Kind: "push", Val: 7}, {Kind: "clear"}}}, checkRing)
 }
 
-func TestSet(t *testing.T)    { vp.Run(t, setProp) }
-func TestRing(t *testing.T)   { vp.Run(t, ringProp) }
-func TestReplay(t *testing.T) { vp.Replay(t) }
+// Long histories: sets that grow to hundreds of elements (growth of the
+// underlying storage) and ring buffers of larger capacity.
+var longRingProp = vp.Register(vp.Prop[RingCase]{
+	Kind: "c11.ring-long", Base: 200,
+	Gen: func(t *rapid.T) RingCase {
+		c := RingCase{Cap: uint(rapid.SampledFrom([]int{7, 8, 9, 15, 16, 17, 31, 32, 33, 64, 100}).Draw(t, "cap"))}
+		n := rapid.IntRange(50, 400).Draw(t, "n")
+		for i := 0; i < n; i++ {
+			k := "push"
+			if rapid.IntRange(0, 60).Draw(t, "clear") == 31 {
+				k = "clear"
+			}
+			c.Ops = append(c.Ops, RingOp{Kind: k, Val: rapid.IntRange(1, 9999).Draw(t, "val"), Stop: rapid.IntRange(0, 120).Draw(t, "stop")})
+		}
+		return c
+	},
+	Check: checkRing,
+})
+
+var longSetProp = vp.Register(vp.Prop[SetCase]{
+	Kind: "c11.set-long", Base: 150,
+	Gen: func(t *rapid.T) SetCase {
+		c := SetCase{
+			Universe: 300,
+			Impl:     rapid.SampledFrom([]string{"mapset-int", "sorted-int", "sorted-string", "sorted-int"}).Draw(t, "impl"),
+			Initial:  rapid.SliceOfN(rapid.IntRange(0, 299), 0, 200).Draw(t, "initial"),
+		}
+		n := rapid.IntRange(50, 250).Draw(t, "n")
+		for i := 0; i < n; i++ {
+			c.Ops = append(c.Ops, SetOp{
+				Kind:   rapid.SampledFrom([]string{"add", "add", "add", "add", "delete", "delete", "clone"}).Draw(t, "kind"),
+				Target: rapid.IntRange(0, 3).Draw(t, "target"),
+				Val:    rapid.IntRange(0, 299).Draw(t, "val"),
+				Stop:   rapid.IntRange(0, 299).Draw(t, "stop"),
+			})
+		}
+		return c
+	},
+	Check: checkSet,
+})
+
+func TestSetLong(t *testing.T)  { vp.Run(t, longSetProp) }
+func TestRingLong(t *testing.T) { vp.Run(t, longRingProp) }
+func TestSet(t *testing.T)      { vp.Run(t, setProp) }
+func TestRing(t *testing.T)     { vp.Run(t, ringProp) }
+func TestReplay(t *testing.T)   { vp.Replay(t) }
